@@ -153,11 +153,12 @@ pub proof fn lemma_sub_no_nl(s: Seq<u8>, a: int, b: int)
 // the three `rsplitn(2, '.')` statements of the member-line parser (trusted region): split at the LAST '.'
 pub uninterp spec fn spec_last_dot(s: Seq<u8>) -> Option<int>;   // index of the last '.' (46), None if there is none
 #[verifier::external_body]
-fn shim_rsplit_class<'a>(original: &'a str) -> (r: (&'a str, Option<&'a str>))
+fn shim_rsplit_class<'a>(original: &'a str, n: usize) -> (r: (&'a str, Option<&'a str>))
+    requires /*@L:class_is_split_off_with_rsplitn_2:C05*/ n == 2,   // the contract below is what `rsplitn(2, '.')` does; any other count is not covered by it
     ensures ({ let s = str_bytes(original);
         match spec_last_dot(s) {
             Some(d) => 0 <= d < s.len() && s[d] == 46u8 && r.1 is Some && str_bytes(r.1->0) == s.subrange(0, d) && str_bytes(r.0) == s.subrange(d + 1, s.len() as int)
                 && (forall|j: int| d < j < s.len() ==> s[j] != 46u8),
             None => r.1 is None && r.0 == original && (forall|j: int| 0 <= j < s.len() ==> s[j] != 46u8),
         } }),
-{ let mut split_class = original.rsplitn(2, '.'); let o = split_class.next().unwrap(); (o, split_class.next()) }
+{ let mut split_class = original.rsplitn(n, '.'); let o = split_class.next().unwrap(); (o, split_class.next()) }
